@@ -41,7 +41,7 @@ class CycleNode(Node):
 
     def __str__(self) -> str:
         assert isinstance(self.token, TagToken)
-        name = f"{identifier_str(self.name)}: " if self.name else ""
+        name = f"{identifier_str(self.name)}: " if self.name is not None else ""
         items = ", ".join(str(i) for i in self.items)
         return f"{{%{self.token.wc[0]} cycle {name}{items} {self.token.wc[1]}%}}"
 
